@@ -118,9 +118,10 @@ VARIANTS = {
     "negative-entry": ["simple-vector", "simple-scalar", "cor-err_val"],
     "corr-out-of-range": ["-0.1", "1.1", "inf", "-inf", "nan"],
     "cor-nonunit-diagonal": ["source", "constraint"],
-    "constraint-matrix": ["nonsymmetric", "wrong-shape-bigger", "wrong-shape-nonsquare", "wrong-shape-flat", "names-values-short", "names-values-long"],
+    "constraint-matrix": ["nonsymmetric", "wrong-shape-bigger", "wrong-shape-nonsquare", "wrong-shape-flat", "names-values-short", "names-values-long", "uncertainties-long", "uncertainties-short", "uncertainties-not-positive", "simple-uncertainty-not-positive"],
     "unknown-parameter": ["set", "set-mixed", "fix", "fix-value", "limit", "unlimit", "constraint", "mconstraint", "release"],
     "unknown-source": ["disable", "enable"],
+    "unknown-fit-index": ["negative", "too-large"],
     "reserved-name": ["rename"],
     "poisson-data": ["negative", "non-integer", "non-integer-large"],
     "unsorted-edges": ["swap", "descending", "inner-form-swap"],
@@ -147,6 +148,7 @@ TARGETS = {
     "cor-nonunit-diagonal": ["container:%s" % t for t in ERR_TYPES] + _fit_targets(ERR_TYPES) + MULTI_TARGETS,
     "unknown-source": ["container:%s" % t for t in ERR_TYPES] + _fit_targets(ERR_TYPES),
     "constraint-matrix": _fit_targets(ALL_TYPES),
+    "unknown-fit-index": MULTI_TARGETS,
     "unknown-parameter": _fit_targets(ALL_TYPES),
     "reserved-name": ["ctor:%s" % t for t in ALL_TYPES],
     "poisson-data": ["ctor:%s" % t for t in ERR_TYPES] + _fit_targets(ERR_TYPES),
@@ -960,6 +962,32 @@ def gen_bad_constraint(rng, st, variant, nonunit=False):
         v = float(rng.choice([0.0, 0.5, 0.9, 0.999, 1.001, 1.1, 2.0]))
         bad[1]["matrix"][i][i] = v
         return valid, bad, {"index": i, "diagonal": v}
+    if variant == "simple-uncertainty-not-positive":
+        # a Gaussian constraint without a positive width is not a measurement
+        valid = gen.gen_constraint(rng, pn, [st.pvals[p] for p in pn], force_kind="simple")
+        bad = copy.deepcopy(valid)
+        u = float(valid[1]["uncertainty"])
+        bad[1]["uncertainty"] = float(rng.choice([-u, 0.0, -0.0, -1e-9 * u]))
+        return valid, bad, {"uncertainty": bad[1]["uncertainty"]}
+    if variant.startswith("uncertainties-"):
+        # correlation matrix + one uncertainty per value
+        for _ in range(30):
+            valid = gen.gen_constraint(rng, pn, [st.pvals[p] for p in pn], force_kind="matrix")
+            if valid[1]["matrix_type"] == "cor" and valid[1].get("uncertainties") is not None:
+                break
+        else:
+            return None
+        bad = copy.deepcopy(valid)
+        u = list(bad[1]["uncertainties"])
+        if variant == "uncertainties-long":
+            u = u + [u[0]] * int(rng.integers(1, 3))
+        elif variant == "uncertainties-short":
+            u = u[:-1]
+        else:
+            i = int(rng.integers(0, len(u)))
+            u[i] = float(rng.choice([-u[i], 0.0]))
+        bad[1]["uncertainties"] = u
+        return valid, bad, {"uncertainties": u}
     valid = gen.gen_constraint(rng, pn, [st.pvals[p] for p in pn], force_kind="matrix")
     bad = copy.deepcopy(valid)
     a = bad[1]
@@ -1385,6 +1413,17 @@ def gen_bad_multi_op(rng, st, operator, variant, form):
         valid, bad, info = gen_bad_source(rng, _shared_ttype(st, fits), st.n, st.new_name(), operator, variant, True, st.yscale, base_force={"relative": False})
         as_shared(rng, st, fits, valid, bad)
         return valid, bad, dict(info, fits=fits)
+    if operator == "unknown-fit-index":
+        # a member that does not exist among the fits that are to share the source
+        fits = pick_fits(rng, st, "list")
+        valid = gen_valid_source(rng, _shared_ttype(st, fits), st.n, st.new_name(), True, st.yscale, force={"relative": False})
+        as_shared(rng, st, fits, valid)
+        bad = copy.deepcopy(valid)
+        wrong = -1 if variant == "negative" else len(st.members) + int(rng.integers(0, 2))
+        bf = list(fits)
+        bf[int(rng.integers(0, len(bf)))] = wrong
+        bad[1]["fits"] = bf
+        return valid, bad, {"fits": bf, "n_members": len(st.members)}
     if operator == "name-taken-in-member":
         fits = pick_fits(rng, st, form)
         order = list(range(len(st.members))) if fits == "all" else list(fits)
